@@ -145,7 +145,7 @@ struct Ctx {
     body_ret: i64,
     mid: Option<Value>,                // visible states captured inside the body
     inv_consults: Vec<(String, Out)>,  // (key, cached value)
-    cif_consults: Vec<(String, Out)>,  // (key, result)
+    cif_consults: Vec<(String, Out, bool)>,  // (key, result, verdict)
     visible: Vec<(String, String, bool)>, // (sts key, cache name, thread-local?) to snapshot from this thread
     open_gates: bool,
     gate_hits: Vec<(String, u32)>,
@@ -204,8 +204,9 @@ pub fn consult_inv(_name: &'static str, key: &String, v: Out) -> bool {
 pub fn consult_cif(_name: &'static str, key: &String, v: Out) -> bool {
     CTX.with(|c| {
         let mut c = c.borrow_mut();
-        c.cif_consults.push((key.clone(), v));
-        c.script.cif
+        let verdict = c.script.cif;
+        c.cif_consults.push((key.clone(), v, verdict));
+        verdict
     })
 }
 
@@ -221,7 +222,7 @@ impl Future for Gate {
     fn poll(self: Pin<&mut Self>, _cx: &mut Context<'_>) -> Poll<()> {
         let open = GATES.with(|g| {
             let g = g.borrow();
-            g.all_open || g.open.contains(&(self.name.to_string(), self.idx))
+            g.all_open || self.idx <= g.open_upto || g.open.contains(&(self.name.to_string(), self.idx))
         });
         if open {
             Poll::Ready(())
@@ -234,11 +235,13 @@ impl Future for Gate {
 #[derive(Default)]
 pub struct Gates {
     pub all_open: bool,
+    /// gates 1..=open_upto of the task being polled are open
+    pub open_upto: u32,
     pub open: BTreeSet<(String, u32)>,
 }
 
 thread_local! {
-    pub static GATES: RefCell<Gates> = RefCell::new(Gates { all_open: true, open: BTreeSet::new() });
+    pub static GATES: RefCell<Gates> = RefCell::new(Gates { all_open: true, open_upto: 0, open: BTreeSet::new() });
 }
 
 pub fn gate(name: &'static str, idx: u32) -> Gate {
@@ -364,6 +367,21 @@ pub enum Req {
         k: u32,
         script: CallScript,
     },
+    /// create the future of an async fixture call and poll it once with every gate closed
+    Start {
+        task: String,
+        fixture: String,
+        k: u32,
+        script: CallScript,
+    },
+    /// open the task's gates 1..=upto and poll it once
+    Resume {
+        task: String,
+        upto: u32,
+    },
+    DropTask {
+        task: String,
+    },
     Snapshot,
     ShiftAge {
         names: Vec<String>,
@@ -380,14 +398,23 @@ pub struct CallResult {
     pub ret: Option<Out>,
     pub panic: Option<String>,
     pub inv_consults: Vec<(String, Out)>,
-    pub cif_consults: Vec<(String, Out)>,
+    pub cif_consults: Vec<(String, Out, bool)>,
     pub after: Value,
 }
 
 pub enum Resp {
     Done,
     Call(Box<CallResult>),
+    /// a poll: (ready?, result with the context as of this poll)
+    Poll(bool, Box<CallResult>),
     Snap(Value),
+}
+
+struct Task {
+    fut: Pin<Box<dyn Future<Output = Out>>>,
+    script: CallScript,
+    executed: bool,
+    body_ret: i64,
 }
 
 pub struct Worker {
@@ -395,10 +422,91 @@ pub struct Worker {
     pub rx: Receiver<Resp>,
 }
 
+fn poll_task(t: &mut Task, upto: u32) -> (bool, CallResult) {
+    // the task's own script / gates are in force while it is polled
+    CTX.with(|c| {
+        let mut c = c.borrow_mut();
+        c.script = t.script.clone();
+        c.executed = false;
+        c.mid = None;
+        c.inv_consults.clear();
+        c.cif_consults.clear();
+    });
+    GATES.with(|g| {
+        let mut g = g.borrow_mut();
+        g.all_open = false;
+        g.open_upto = upto;
+    });
+    let r = catch_unwind(AssertUnwindSafe(|| poll_once(&mut t.fut)));
+    GATES.with(|g| {
+        let mut g = g.borrow_mut();
+        g.all_open = true;
+        g.open_upto = 0;
+    });
+    let visible = CTX.with(|c| c.borrow().visible.clone());
+    let after = snapshot_visible(&visible);
+    let (ready, ret, panic) = match r {
+        Ok(Poll::Ready(o)) => (true, Some(o), None),
+        Ok(Poll::Pending) => (false, None, None),
+        Err(e) => (true, None, Some(panic_msg(&e))),
+    };
+    let res = CTX.with(|c| {
+        let mut c = c.borrow_mut();
+        if c.executed {
+            t.executed = true;
+            t.body_ret = c.body_ret;
+        }
+        CallResult {
+            executed: t.executed,
+            body_ret: t.body_ret,
+            mid: c.mid.take(),
+            ret,
+            panic,
+            inv_consults: std::mem::take(&mut c.inv_consults),
+            cif_consults: std::mem::take(&mut c.cif_consults),
+            after,
+        }
+    });
+    (ready, res)
+}
+
 fn worker_main(rx: Receiver<Req>, tx: Sender<Resp>) {
-    std::panic::set_hook(Box::new(|_| {}));
+    let mut tasks: HashMap<String, Task> = HashMap::new();
     while let Ok(req) = rx.recv() {
         match req {
+            Req::Start {
+                task,
+                fixture,
+                k,
+                script,
+            } => {
+                let fut = crate::fixtures_gen::call_async(&fixture, k).expect("async fixture");
+                let mut t = Task {
+                    fut,
+                    script,
+                    executed: false,
+                    body_ret: 0,
+                };
+                let (ready, res) = poll_task(&mut t, 0);
+                if !ready {
+                    tasks.insert(task, t);
+                }
+                tx.send(Resp::Poll(ready, Box::new(res))).unwrap();
+            }
+            Req::Resume { task, upto } => {
+                let mut t = tasks.remove(&task).expect("unknown task");
+                let (ready, res) = poll_task(&mut t, upto);
+                if !ready {
+                    tasks.insert(task, t);
+                }
+                tx.send(Resp::Poll(ready, Box::new(res))).unwrap();
+            }
+            Req::DropTask { task } => {
+                let t = tasks.remove(&task);
+                drop(t);
+                let visible = CTX.with(|c| c.borrow().visible.clone());
+                tx.send(Resp::Snap(snapshot_visible(&visible))).unwrap();
+            }
             Req::SetVisible(v) => {
                 CTX.with(|c| c.borrow_mut().visible = v);
                 tx.send(Resp::Done).unwrap();
@@ -485,6 +593,11 @@ impl Worker {
     pub fn ask(&self, r: Req) -> Resp {
         self.tx.send(r).unwrap();
         self.rx.recv().expect("worker died")
+    }
+    /// None when the worker does not answer within 3 s (it hangs: e.g. a lock kept across an await)
+    pub fn ask_timeout(&self, r: Req) -> Option<Resp> {
+        self.tx.send(r).unwrap();
+        self.rx.recv_timeout(std::time::Duration::from_secs(3)).ok()
     }
 }
 
